@@ -23,6 +23,7 @@ def run(prop, tier):
 def replay(prop, path):
     """re-execute exactly the stored behaviour / trace and report whether it still fails"""
     data = json.load(open(path))
+    data["_path"] = path
     from . import replays
 
     return replays.rerun(prop, data)
